@@ -1,0 +1,177 @@
+/* Runtime-verification hooks.  Everything in here is compiled only when
+   DWGREP_VERIF is defined; with the guard off this header is empty and no
+   translation unit changes.  The hooks never change behaviour other than
+   aborting on a violated invariant or throwing when an explicitly requested
+   step budget ("fuel") is exhausted.  */
+
+#ifndef _VERIF_HOOKS_H_
+#define _VERIF_HOOKS_H_
+
+#ifdef DWGREP_VERIF
+
+#include <cstdint>
+#include <cstdio>
+#include <cstdlib>
+#include <map>
+#include <stdexcept>
+#include <string>
+#include <typeinfo>
+
+namespace dwgrep_verif
+{
+  struct stats
+  {
+    uint64_t scon_new = 0;
+    uint64_t scon_del = 0;
+    uint64_t scon_con = 0;
+    uint64_t scon_des = 0;
+    uint64_t scon_get = 0;
+    uint64_t stack_checks[8] = {};	// by depth, 7 = 7 and deeper
+    uint64_t stack_checks_after_drop = 0;
+    uint64_t coverage_checks = 0;
+    uint64_t fuel_used = 0;
+    uint64_t fuel_exhausted = 0;
+    std::map <std::string, uint64_t> state_types; // typeid name -> #con
+  };
+
+  inline stats &
+  get_stats ()
+  {
+    static stats s;
+    return s;
+  }
+
+  // Remaining step budget.  0 means unlimited.  Initialised from the
+  // environment variable DWGREP_VERIF_FUEL so that the CLI can be bounded, too.
+  inline uint64_t &
+  fuel ()
+  {
+    static uint64_t f = [] () -> uint64_t {
+      char const *e = getenv ("DWGREP_VERIF_FUEL");
+      return e != nullptr ? strtoull (e, nullptr, 10) : 0;
+    } ();
+    return f;
+  }
+
+  // Non-zero while a destructor chain runs: burning fuel must not throw then.
+  inline unsigned &
+  no_fuel_depth ()
+  {
+    static unsigned d = 0;
+    return d;
+  }
+
+  inline void
+  burn_fuel ()
+  {
+    ++get_stats ().fuel_used;
+    uint64_t &f = fuel ();
+    if (f != 0 && no_fuel_depth () == 0)
+      if (--f == 0)
+	{
+	  ++get_stats ().fuel_exhausted;
+	  f = 1; // stay exhausted until the budget is explicitly renewed
+	  throw std::runtime_error ("DWGREP_VERIF fuel exhausted");
+	}
+  }
+
+  __attribute__ ((noreturn)) inline void
+  fail (char const *area, char const *what, char const *type = "",
+	unsigned long a = 0, unsigned long b = 0)
+  {
+    fprintf (stderr, "DWGREP_VERIF %s: %s type=%s a=%lu b=%lu\n",
+	     area, what, type, a, b);
+    fflush (stderr);
+    abort ();
+  }
+
+  // Shadow of one scon: which state objects are currently alive where.
+  struct scon_shadow
+  {
+    struct entry
+    {
+      size_t size;
+      std::type_info const *type;
+      bool trivial;
+    };
+    std::map <size_t, entry> m_live;
+
+    scon_shadow () { ++get_stats ().scon_new; }
+
+    void
+    check_free (size_t off, size_t size, std::type_info const &t) const
+    {
+      auto it = m_live.upper_bound (off);
+      if (it != m_live.end () && it->first < off + size)
+	fail ("scon", "con overlaps a live state", t.name (), off, it->first);
+      if (it != m_live.begin ())
+	{
+	  --it;
+	  if (it->first + it->second.size > off
+	      // A trivially destructible state that was never destroyed (the
+	      // closure rendezvous) may be constructed over again.
+	      && ! (it->first == off && it->second.trivial
+		    && *it->second.type == t))
+	    fail ("scon", it->first == off
+		  ? "con of a state that is already live"
+		  : "con overlaps a live state", t.name (), off, it->first);
+	}
+    }
+
+    void
+    on_con (size_t off, size_t size, std::type_info const &t, bool trivial)
+    {
+      auto &st = get_stats ();
+      ++st.scon_con;
+      ++st.state_types[t.name ()];
+      m_live[off] = entry {size, &t, trivial};
+    }
+
+    void
+    check_live (char const *op, size_t off, std::type_info const &t) const
+    {
+      auto it = m_live.find (off);
+      if (it == m_live.end ())
+	fail ("scon", (std::string (op) + " of a state that is not live")
+	      .c_str (), t.name (), off);
+      if (*it->second.type != t)
+	fail ("scon", (std::string (op) + " with the wrong state type, live is "
+		       + it->second.type->name ()).c_str (), t.name (), off);
+    }
+
+    void
+    on_get (size_t off, std::type_info const &t) const
+    {
+      ++get_stats ().scon_get;
+      check_live ("get", off, t);
+      burn_fuel ();
+    }
+
+    void
+    des_begin (size_t off, std::type_info const &t) const
+    {
+      check_live ("des", off, t);
+      ++no_fuel_depth ();
+    }
+
+    void
+    des_end (size_t off)
+    {
+      --no_fuel_depth ();
+      ++get_stats ().scon_des;
+      m_live.erase (off);
+    }
+
+    ~scon_shadow ()
+    {
+      ++get_stats ().scon_del;
+      for (auto const &e: m_live)
+	if (! e.second.trivial)
+	  fail ("scon", "state still live when its scon is destroyed",
+		e.second.type->name (), e.first);
+    }
+  };
+}
+
+#endif // DWGREP_VERIF
+#endif // _VERIF_HOOKS_H_
